@@ -106,6 +106,13 @@ fn corpus() -> Vec<CaseDef> {
         (0, 8, 1, 129 * 32, 8000, 32),
         (0, 8, 1, 2049 * 32, 8000, 32),
         (1, 16, 1, 1300 * 32, 8000, 32),
+        // call history on the calling thread (a build without `par`, or multithread = false, encodes there;
+        // a `par` build uses fresh worker threads): a full block, then a lone block a few samples shorter
+        // (same 16-sample class), then a stream whose last block is a few samples short; LPC-friendly content
+        (1, 16, 1, 1024, 44100, 1024),
+        (1, 16, 1, 1017, 44100, 1024),
+        (1, 16, 1, 3 * 1024 + 1019, 44100, 1024),
+        (5, 24, 2, 4096 + 4090, 48000, 4096),
     ] {
         for mt in [None, Some(false), Some(true)] {
             add(
